@@ -55,6 +55,8 @@ struct ClientView {
     random: String,
     responded: bool,
     status: u16,
+    /// the endpoint closed the connection (CONNECTION_CLOSE seen) before the client did
+    peer_closed: bool,
     note: String,
 }
 
@@ -86,7 +88,12 @@ fn visit(server: SocketAddr, src: IpAddr, sni: &str, request: Option<(&str, &str
         match c.request(&request_headers(method, target, &extra), method != "CONNECT") {
             Ok(sid) => {
                 // a denied connection is answered nothing: wait the quiet period out; an allowed one answers at once
-                c.run_until(quiet, |c| c.streams.get(&sid).map(|s| !s.heads.is_empty() || s.ended()).unwrap_or(false));
+                // (the client keeps probing: a connection the endpoint dropped is closed on the next packet it receives)
+                let t0 = Instant::now();
+                while t0.elapsed() < quiet {
+                    if c.run_until(Duration::from_millis(100), |c| c.is_closed() || c.streams.get(&sid).map(|s| !s.heads.is_empty() || s.ended()).unwrap_or(false)) { break; }
+                    c.ping();
+                }
                 let s = c.stream(sid);
                 v.responded = !s.heads.is_empty();
                 v.status = s.status(0);
@@ -98,8 +105,14 @@ fn visit(server: SocketAddr, src: IpAddr, sni: &str, request: Option<(&str, &str
             Err(e) => v.note = e,
         }
     } else {
-        c.linger(Duration::from_millis(100));
+        let t0 = Instant::now();
+        while t0.elapsed() < quiet.min(Duration::from_millis(500)) {
+            if c.run_until(Duration::from_millis(100), |c| c.is_closed()) { break; }
+            c.ping();
+        }
     }
+    v.peer_closed = c.closed_by_peer();
+    if !v.peer_closed { v.note = c.close_reason(); }
     c.close();
     c.linger(Duration::from_millis(20));
     v
@@ -253,7 +266,7 @@ fn main() {
                     kind, view.established, view.random, if view.established { u8::from_str_radix(&view.random[..2], 16).unwrap_or(0) } else { 0 }, view.hello_pkts, shape.fillers, shape.reversed));
             }
             all_lines.extend(lines);
-            all_lines.push(format!("{{\"ev\":\"ConnEnd\",\"kind\":\"{}\",\"established\":{},\"client_random\":\"{}\",\"responded\":{},\"status\":{},\"must_respond\":{}}}", kind, view.established, view.random, view.responded, view.status, must_respond));
+            all_lines.push(format!("{{\"ev\":\"ConnEnd\",\"kind\":\"{}\",\"established\":{},\"client_random\":\"{}\",\"responded\":{},\"status\":{},\"must_respond\":{},\"peer_closed\":{}}}", kind, view.established, view.random, view.responded, view.status, must_respond, view.peer_closed));
         }
         all_lines.splice(0..0, verif::stop_recording().into_iter().filter(|l| l.contains("\"ev\":\"Config\"")));
         for l in all_lines {
